@@ -238,6 +238,31 @@ def check(ctx):
     ctx.rule("R6", "get_device returns the first element whose key equals the argument; devices lists the keys of the same list")
     ctx.rule("R8", "the inventory is taken from the pack that is loaded now: on both structure classes, built by their own constructors, build_accessors(config, log) leaves exactly the items of that pair (log item wins a name clash) and that pair's output / device / demand lists - also when another pair was loaded before (nothing of an earlier pack survives a reload, so no sensor or device is offered for an item the spa does not have)")
     structure_tables(ctx, repo, "R8")
+    ctx.rule("R9", "a pump's mode list is its own demand item's label list, whatever other pumps exist in the process: two GeckoPump objects built by the constructor in one interpreter - same device key and demand tag, different label lists (as for P3 on inXM vs the other platforms) - each report their own list, in either order of asking")
+    from ..absint import ClassRef as _CR, Interp as _I, PyRaise as _PR, Undecided as _U
+    from ..facademodel import Rec as _Rec, accessor as _acc, model_facade as _mf
+    for order in ("first-then-second", "second-then-first"):
+        it = _I(repo, max_depth=12)
+        got = {}
+        try:
+            pumps = {}
+            for nm, opts in (("first", ["OFF", "HI"]), ("second", ["OFF", "LO", "HI"])):
+                rec = _Rec()
+                accs = {"P3": _acc(rec, "P3", "OFF"), "UdP3": _acc(rec, "UdP3", "OFF", "Enum", list(opts))}
+                fac, _spa = _mf(rec, accs)
+                pumps[nm] = it.apply(_CR(repo.cls("GeckoPump")), [fac, "P3", ("Pump 3", 3, "P3", "PUMP"), {"demand": "UdP3", "options": list(opts)}], {})
+            for nm in (("first", "second") if order == "first-then-second" else ("second", "first")):
+                got[nm] = list(it.getattr(pumps[nm], "modes"))
+        except _PR as e:
+            got = {"raises": e.what}
+        except (_U, TypeError) as e:
+            raise AnalysisError(f"GeckoPump.modes on two model facades: {e}")
+        ctx.ob("R9", f"GeckoPump.modes::two-facades::{order}", got == {"first": ["OFF", "HI"], "second": ["OFF", "LO", "HI"]},
+               f"two pumps with demand tag UdP3 and label lists ['OFF','HI'] / ['OFF','LO','HI'], asked {order.replace('-', ' ')}: mode lists {got} - a pump reports another pump's modes (state shared between instances)",
+               repo.method("GeckoPump", "modes").loc, sample={"rule": "R9", "order": order, "modes": {k: v for k, v in got.items()}})
+    # ... and no automation class keeps per-device data in a class-level container (C10.R8's rule borrowed)
+    from .c10 import shared_class_state
+    shared_class_state(ctx.borrowed("R9", "C10"), repo, "R8", only_under="/automation/")
     # R1-R3 by interpretation on model wirings (vlib/facademodel.py): both scans against the statement
     from ..facademodel import inventory
     inv = inventory(ctx, repo, "R1", SCANS)
